@@ -169,7 +169,9 @@ def make_grid(hszinc):
             {'a': hszinc.XStr('Type', 'x'), 'b': hszinc.MARKER}, {'a': hszinc.Ref('x')}, {'b': hszinc.MARKER},
             {'a': hszinc.Quantity(5, 'exec')}, {'a': [1.0]}, {'a': {'k': 'v'}}, {'a': hszinc.Bin('text/plain')},
             # a reference target whose id is a plain string, and a row pointing at it
-            {'id': 's1', 'a': 'site', 'b': hszinc.MARKER}, {'a': hszinc.Ref('s1'), 'c': hszinc.MARKER}, {'id': 7, 'a': hszinc.Ref('7')}]
+            {'id': 's1', 'a': 'site', 'b': hszinc.MARKER}, {'a': hszinc.Ref('s1'), 'c': hszinc.MARKER}, {'id': 7, 'a': hszinc.Ref('7')},
+            # one id on two rows: whichever of them a lookup answers with, it answers the same after a filter ran
+            {'id': hszinc.Ref('d'), 'a': 'first', 'b': hszinc.MARKER}, {'id': hszinc.Ref('d'), 'a': 'second', 'c': hszinc.MARKER}]
     for r in rows:
         g.append(r)
     return g
@@ -177,7 +179,7 @@ def make_grid(hszinc):
 
 def lookup_keys(hszinc):
     R = hszinc.Ref
-    return ['x', '@x', R('x'), 's1', '@s1', R('s1'), R('s1', 'dis'), 7, '7', '@7', R('7'), 'never', '@never', R('never'), 'text', '', '@']
+    return ['x', '@x', R('x'), 's1', '@s1', R('s1'), R('s1', 'dis'), 7, '7', '@7', R('7'), 'never', '@never', R('never'), 'text', '', '@', 'd', '@d', R('d')]
 
 
 def grid_observations(hszinc, hs, gr):
